@@ -14,10 +14,15 @@ def InB (cfg : Cfg) (v : Nat) : Prop := cfg.min ≤ v ∧ v ≤ cfg.max
 
 instance (cfg : Cfg) (v : Nat) : Decidable (InB cfg v) := by unfold InB; infer_instance
 
+/-- **the decrease never increases**: `(r as f64 * decrease_factor) as usize ≤ r` — asked only of the values within the
+bounds (the only ones the limit cell ever holds). ANY function will do: the exact `⌊r·p/q⌋` with `p ≤ q`
+(`decOk_ratio`), the binary64 arithmetic of the code for every factor `p/q ≤ 1` (`decOk_f64`), … -/
+def DecOk (cfg : Cfg) : Prop := ∀ r, InB cfg r → cfg.dec r ≤ r
+
 /-- the configurations the property quantifies over -/
 structure Wf (cfg : Cfg) : Prop where
   le : cfg.min ≤ cfg.max
-  factor : cfg.fnum ≤ cfg.fden
+  factor : DecOk cfg
 
 theorem clampInit_inB {cfg : Cfg} (h : cfg.min ≤ cfg.max) : InB cfg (clampInit cfg) := by
   unfold clampInit InB
@@ -40,9 +45,111 @@ theorem mul_div_le_self (r p q : Nat) (h : p ≤ q) : r * p / q ≤ r := by
 
 theorem aimdFailNew_inB {cfg : Cfg} (w : Wf cfg) {r : Nat} (hr : InB cfg r) :
     InB cfg (aimdFailNew cfg r) := by
-  have h1 := mul_div_le_self r cfg.fnum cfg.fden w.factor
+  have h1 := w.factor r hr
   have h2 := w.le
   unfold aimdFailNew; unfold InB at *; omega
+
+/-- the bound for ONE decrease, for an arbitrary function: all that is used of it is `d r ≤ r` at that `r` -/
+theorem decrease_inB {cfg : Cfg} (h : cfg.min ≤ cfg.max) (d : Nat → Nat) {r : Nat} (hr : InB cfg r) (hd : d r ≤ r) :
+    InB cfg (max (d r) cfg.min) := by
+  unfold InB at *; omega
+
+/-- the exact rational decrease `⌊r·p/q⌋` with `p ≤ q` -/
+theorem decOk_ratio {cfg : Cfg} {p q : Nat} (h : p ≤ q) (hd : cfg.dec = ratioDec p q) : DecOk cfg := by
+  intro r _; rw [hd]; exact mul_div_le_self r p q h
+
+/-! ### the binary64 arithmetic of `(r as f64 * factor) as usize` never exceeds `r` for a factor `≤ 1` -/
+
+/-- rounding `a / b` to the nearest integer does not pass an integer that is `≥ a / b` -/
+theorem rne_le_of_le_mul {a b m : Nat} (hb : 0 < b) (h : a ≤ m * b) : rne a b ≤ m := by
+  have hq : a / b ≤ m := by
+    apply Nat.div_le_of_le_mul; rw [Nat.mul_comm]; exact h
+  have hmod := Nat.mod_lt a hb
+  have hdm := Nat.div_add_mod a b
+  unfold rne
+  simp only
+  by_cases hlt : a / b < m
+  · split
+    · omega
+    · split
+      · omega
+      · split <;> omega
+  · have hqm : a / b = m := by omega
+    have hr0 : a % b = 0 := by
+      have h3 : b * (a / b) = m * b := by rw [hqm, Nat.mul_comm]
+      omega
+    have : 2 * (a % b) < b := by omega
+    rw [if_pos this]; omega
+
+/-- the quotient `fl(p / q)` is at most 1 for `p ≤ q`: mantissa `≤ 2^scale` -/
+theorem fdiv_le_one {p q : Nat} (hq : 0 < q) (h : p ≤ q) : (fdiv p q).1 ≤ 2 ^ (fdiv p q).2 := by
+  unfold fdiv
+  simp only
+  apply rne_le_of_le_mul hq
+  rw [Nat.mul_comm]
+  exact Nat.mul_le_mul_left _ h
+
+theorem fdiv0_le_one {p q : Nat} (hq : 0 < q) (h : p ≤ q) : (fdiv0 p q).1 ≤ 2 ^ (fdiv0 p q).2 := by
+  unfold fdiv0
+  split
+  · simp
+  · exact fdiv_le_one hq h
+
+/-- `fl(M/2^s · l)` truncated is at most `l` when `M/2^s ≤ 1` and `l` is an exact binary64 integer -/
+theorem mulTrunc_le {M s l : Nat} (hM : M ≤ 2 ^ s) (hl : l < 2 ^ 53) : mulTrunc (M, s) l ≤ l := by
+  unfold mulTrunc
+  simp only
+  have hP : M * l ≤ l * 2 ^ s := by rw [Nat.mul_comm]; exact Nat.mul_le_mul_left l hM
+  have hs : 0 < 2 ^ s := Nat.two_pow_pos _
+  split
+  · apply Nat.div_le_of_le_mul; rw [Nat.mul_comm (2 ^ s) l]; exact hP
+  · next hbig =>
+    have hbig' : 2 ^ 53 ≤ M * l := by omega
+    have hne : M * l ≠ 0 := by
+      have : 0 < 2 ^ 53 := Nat.two_pow_pos _
+      omega
+    have hlog : 2 ^ (M * l).log2 ≤ M * l := Nat.log2_self_le hne
+    have h53 : 53 ≤ (M * l).log2 := by
+      rw [Nat.le_log2 hne]; exact hbig'
+    -- the scale of the rounding step is at most `s`
+    have hks : (M * l).log2 - 52 ≤ s := by
+      have h1 : 2 ^ (M * l).log2 < 2 ^ (53 + s) := by
+        calc 2 ^ (M * l).log2 ≤ M * l := hlog
+          _ ≤ l * 2 ^ s := hP
+          _ < 2 ^ 53 * 2 ^ s := Nat.mul_lt_mul_of_pos_right hl hs
+          _ = 2 ^ (53 + s) := (Nat.pow_add 2 53 s).symm
+      have := (Nat.pow_lt_pow_iff_right (by decide : 1 < 2)).mp h1
+      omega
+    generalize hk : (M * l).log2 - 52 = k at hks ⊢
+    have hk0 : 0 < 2 ^ k := Nat.two_pow_pos _
+    have hsplit : 2 ^ s = 2 ^ (s - k) * 2 ^ k := by rw [← Nat.pow_add]; congr 1; omega
+    have hle : M * l ≤ (l * 2 ^ (s - k)) * 2 ^ k := by rw [Nat.mul_assoc, ← hsplit]; exact hP
+    have hr := rne_le_of_le_mul hk0 hle
+    apply Nat.div_le_of_le_mul
+    calc rne (M * l) (2 ^ k) * 2 ^ k ≤ (l * 2 ^ (s - k)) * 2 ^ k := Nat.mul_le_mul_right _ hr
+      _ = 2 ^ s * l := by rw [Nat.mul_assoc, ← hsplit, Nat.mul_comm]
+
+/-- **the code's own arithmetic**: for every factor `p/q ≤ 1` (`q ≠ 0`) and every `r < 2^53`,
+`(r as f64 * (p as f64 / q as f64)) as usize ≤ r` -/
+theorem f64Dec_le {p q r : Nat} (h : p ≤ q) (hr : r < 2 ^ 53) : f64Dec p q r ≤ r := by
+  unfold f64Dec
+  split
+  · exact Nat.zero_le _
+  · next hq =>
+    have hq' : 0 < q := Nat.pos_of_ne_zero hq
+    have := fdiv0_le_one hq' h
+    exact mulTrunc_le (M := (fdiv0 p q).1) (s := (fdiv0 p q).2) this hr
+
+/-- … hence every configuration the line protocol builds with a factor `fnum/fden ≤ 1` and `max_limit < 2^53` is one
+the theorems speak about -/
+theorem decOk_f64 {cfg : Cfg} {p q : Nat} (h : p ≤ q) (hmax : cfg.max < 2 ^ 53) (hd : cfg.dec = f64Dec p q) : DecOk cfg := by
+  intro r hr
+  rw [hd]
+  exact f64Dec_le h (by unfold InB at hr; omega)
+
+/-- the default decrease (factor 0.5) -/
+theorem decOk_half {cfg : Cfg} (hd : cfg.dec = fun r => r / 2) : DecOk cfg := by
+  intro r _; rw [hd]; exact Nat.div_le_self r 2
 
 theorem vegasFailNew_inB {cfg : Cfg} (h : cfg.min ≤ cfg.max) {r : Nat} (hr : InB cfg r) :
     InB cfg (vegasFailNew cfg r) := by
@@ -202,6 +309,58 @@ theorem tstep_ok {cfg : Cfg} (w : Wf cfg) (c : Cells) (th : Thread)
     · exact beginOp_ok w c th _ hc ht
   · exact contOp_ok w c th hc ht
 
+/-- a spurious failure of the weak compare-exchange touches neither the limit cell nor any register holding a limit -/
+theorem tstepW_ok {cfg : Cfg} (w : Wf cfg) (c : Cells) (th : Thread) (weak : Bool)
+    (hc : CellsOk cfg c) (ht : ThreadOk cfg th) :
+    CellsOk cfg (tstepW cfg c th weak).1 ∧ ThreadOk cfg (tstepW cfg c th weak).2 := by
+  unfold tstepW
+  split
+  · split
+    · next th' hw =>
+      unfold weakFail at hw
+      split at hw
+      · cases hw; exact ⟨hc, setPh_ok ht (afterMinLoad_ok cfg _ _)⟩
+      · cases hw
+    · exact tstep_ok w c th hc ht
+  · exact tstep_ok w c th hc ht
+
+/-! ## the ghost history of the limit cell only grows -/
+
+theorem storeLimit_mono (c : Cells) (v x : Nat) (h : x ∈ c.stores) : x ∈ (storeLimit c v).stores := by
+  simp [storeLimit, h]
+
+theorem beginOp_mono (cfg : Cfg) (c : Cells) (th : Thread) (op : FOp) (x : Nat) (h : x ∈ c.stores) :
+    x ∈ (beginOp cfg c th op).1.stores := by
+  unfold beginOp
+  split <;> first | exact h | (split <;> first | exact h | exact storeLimit_mono c _ x h)
+
+theorem contOp_mono (cfg : Cfg) (c : Cells) (th : Thread) (x : Nat) (h : x ∈ c.stores) :
+    x ∈ (contOp cfg c th).1.stores := by
+  unfold contOp
+  split <;> first | exact h | exact storeLimit_mono c _ x h | (split <;> exact h)
+
+theorem tstep_mono (cfg : Cfg) (c : Cells) (th : Thread) (x : Nat) (h : x ∈ c.stores) :
+    x ∈ (tstep cfg c th).1.stores := by
+  unfold tstep
+  split
+  · split
+    · exact h
+    · exact beginOp_mono cfg c th _ x h
+  · exact contOp_mono cfg c th x h
+
+theorem tstepW_mono (cfg : Cfg) (c : Cells) (th : Thread) (weak : Bool) (x : Nat) (h : x ∈ c.stores) :
+    x ∈ (tstepW cfg c th weak).1.stores := by
+  unfold tstepW
+  split
+  · split
+    · exact h
+    · exact tstep_mono cfg c th x h
+  · exact tstep_mono cfg c th x h
+
+/-- the value in the limit cell is the last entry of its history -/
+theorem limit_mem_stores {cfg : Cfg} {c : Cells} (hc : CellsOk cfg c) : c.limit ∈ c.stores :=
+  List.mem_of_getLast? hc.last
+
 /-! ## schedules -/
 
 structure Inv (cfg : Cfg) (s : State) : Prop where
@@ -211,7 +370,7 @@ structure Inv (cfg : Cfg) (s : State) : Prop where
 theorem say_inv {cfg : Cfg} {s : State} (h : Inv cfg s) (l : String) : Inv cfg (say s l) :=
   ⟨h.cells, h.threads⟩
 
-theorem stepT_inv {cfg : Cfg} (w : Wf cfg) {s : State} (h : Inv cfg s) (tid : Nat) :
+theorem stepT_inv {cfg : Cfg} (w : Wf cfg) {s : State} (h : Inv cfg s) (tid : Turn) :
     Inv cfg (stepT cfg s tid) := by
   unfold stepT
   split
@@ -220,7 +379,7 @@ theorem stepT_inv {cfg : Cfg} (w : Wf cfg) {s : State} (h : Inv cfg s) (tid : Na
     split
     · exact say_inv h _
     · have hmem : th ∈ s.threads := List.mem_of_getElem? hth
-      have hr := tstep_ok w s.cells th h.cells (h.threads th hmem)
+      have hr := tstepW_ok w s.cells th tid.isWeak h.cells (h.threads th hmem)
       apply say_inv
       refine ⟨hr.1, ?_⟩
       intro x hx
@@ -228,7 +387,7 @@ theorem stepT_inv {cfg : Cfg} (w : Wf cfg) {s : State} (h : Inv cfg s) (tid : Na
       · exact h.threads x hx
       · subst hx; exact hr.2
 
-theorem runSched_inv {cfg : Cfg} (w : Wf cfg) (sched : List Nat) {s : State} (h : Inv cfg s) :
+theorem runSched_inv {cfg : Cfg} (w : Wf cfg) (sched : List Turn) {s : State} (h : Inv cfg s) :
     Inv cfg (runSched cfg s sched) := by
   induction sched generalizing s with
   | nil => exact h
@@ -244,7 +403,7 @@ theorem drain_inv {cfg : Cfg} (w : Wf cfg) (n : Nat) {s : State} (h : Inv cfg s)
     · exact h
     · exact ih (stepT_inv w h _)
 
-theorem exec_inv {cfg : Cfg} (w : Wf cfg) (sched : List Nat) {s : State} (h : Inv cfg s) :
+theorem exec_inv {cfg : Cfg} (w : Wf cfg) (sched : List Turn) {s : State} (h : Inv cfg s) :
     Inv cfg (exec cfg s sched) :=
   drain_inv w _ (runSched_inv w sched h)
 
